@@ -714,6 +714,8 @@ extern int32_t x509NewExtensions(x509v3extensions_t **extensions,
 extern void x509FreeExtensions(x509v3extensions_t *extensions);
 extern int32_t psX509ValidateGeneralName(const char *n);
 extern int32_t validateDateRange(psX509Cert_t *cert);
+extern int32_t psX509DateRangeFlags(const psX509Cert_t *cert,
+        uint32_t *failFlags);
 
 /** Return the number of parsed attributes in DN. */
 extern int32_t psX509GetNumDNAttributes(const x509DNattributes_t *DN);
